@@ -79,12 +79,17 @@ class Machine:
     def typed(self, q, ntype):
         """the number q = <<num, den>> in the type the caller chooses: a float (default), a Python int, an integer or float array per dimension"""
         v = q[0] / q[1]
+        if ntype == 'mixedarray':
+            return np.array([v * ((-1) ** d) * (d + 1) for d in range(self.dim)], dtype=float)
         if q[1] != 1 or ntype in (None, 'float'):
             return np.array([v] * self.dim) if ntype == 'floatarray' else v
         if ntype == 'int':
             return int(q[0])
         if ntype == 'intarray':
             return np.array([int(q[0])] * self.dim)
+        if ntype == 'mixedarray':
+            # one value per dimension, of different sign and size (some axes mirrored, others not)
+            return np.array([v * ((-1) ** d) * (d + 1) for d in range(self.dim)], dtype=float)
         return np.array([v] * self.dim)
 
     def apply(self, op, args):
@@ -266,9 +271,9 @@ def random_trace(rng, nsteps):
             lo, hi = rng.choice([([0, 1], [1, 1]), ([0, 1], [2, 1]), ([1, 1], [3, 1]), ([-1, 1], [1, 1])])
             args = {'lo': lo, 'hi': hi, 'override': rng.random() < 0.3}
         elif op == 'scale_factor':
-            args = {'f': rng.choice([[2, 1], [1, 2], [-1, 1], [3, 1]]), 'override': rng.random() < 0.3, 'ntype': rng.choice(['float', 'float', 'int', 'intarray', 'floatarray'])}
+            args = {'f': rng.choice([[2, 1], [1, 2], [-1, 1], [3, 1]]), 'override': rng.random() < 0.3, 'ntype': rng.choice(['float', 'float', 'int', 'intarray', 'floatarray', 'mixedarray'])}
         elif op == 'shift':
-            args = {'t': rng.choice([[1, 1], [-1, 1], [1, 2]]), 'override': rng.random() < 0.3, 'ntype': rng.choice(['float', 'float', 'int', 'intarray', 'floatarray'])}
+            args = {'t': rng.choice([[1, 1], [-1, 1], [1, 2]]), 'override': rng.random() < 0.3, 'ntype': rng.choice(['float', 'float', 'int', 'intarray', 'floatarray', 'mixedarray'])}
         elif op == 'split_pieces':
             args = {'k': rng.randint(0, n1)}
         elif op == 'remove':
@@ -287,6 +292,49 @@ def random_trace(rng, nsteps):
         evs.append(ev)
         script.append([op, args])
     return {'dim': dim, 'events': evs, 'origin': 'random', '_script': {'xs': xs, 'ls': ls, 'dim': dim, 'ops': script}}
+
+
+def chain_trace(rng, pattern):
+    """deterministic sub-histories the random generator hardly ever produces: a data set is scaled to a range, loses its extreme samples (or a
+    derived piece is taken) and is scaled to the SAME range again; per-dimension factors of different sign before a revert"""
+    dim = rng.choice([1, 2, 2, 3])
+    n = rng.choice([4, 5, 6])
+    vals = [0, 1, 2, 3, 4, 6]
+    while True:
+        xs = [[rng.choice(vals) for _ in range(dim)] for _ in range(n)]
+        if all(len({x[d] for x in xs}) >= 3 for d in range(dim)):
+            break
+    ls = [rng.choice([0, 1]) for _ in range(n)]
+    if len(set(ls)) == 1:
+        ls[0] = 1 - ls[0]
+    m = Machine(xs, ls, dim)
+    evs = [{'op': 'init', 'args': {}, 'raised': False, 'regs': m.snap()}]
+    script = []
+    lo, hi = rng.choice([([0, 1], [1, 1]), ([0, 1], [2, 1]), ([1, 1], [3, 1]), ([-1, 1], [1, 1])])
+    col0 = [x[0] for x in xs]
+    if pattern == 'remove-extreme':
+        ext = col0.index(min(col0)) + 1 if rng.random() < 0.5 else col0.index(max(col0)) + 1
+        ops = [('scale_range', {'lo': lo, 'hi': hi, 'override': rng.random() < 0.5}), ('remove', {'idx': [ext], 'bad': False}),
+               ('scale_range', {'lo': lo, 'hi': hi, 'override': False}), ('revert', {})]
+    elif pattern == 'piece':
+        ops = [('scale_range', {'lo': lo, 'hi': hi, 'override': False}), ('split_pieces', {'k': rng.randint(1, n - 2)}), ('swap', {}),
+               ('scale_range', {'lo': lo, 'hi': hi, 'override': False})]
+    elif pattern == 'label-piece':
+        ops = [('scale_range', {'lo': lo, 'hi': hi, 'override': False}), ('split_labels', {}), ('swap', {}), ('scale_range', {'lo': lo, 'hi': hi, 'override': False})]
+    else:      # 'mixed-factor'
+        f = rng.choice([[2, 1], [1, 2], [3, 1], [-1, 1]])
+        ops = [(rng.choice(['scale_range', 'shift']), None), ('scale_factor', {'f': f, 'override': False, 'ntype': 'mixedarray'}), ('revert', {})]
+        ops[0] = ('scale_range', {'lo': lo, 'hi': hi, 'override': False}) if ops[0][0] == 'scale_range' else ('shift', {'t': [1, 1], 'override': False, 'ntype': 'float'})
+        if rng.random() < 0.5:
+            ops = ops[1:]
+    for op, args in ops:
+        if op == 'revert' and not m.r[0].is_scaled():
+            continue
+        if op == 'scale_range' and m.r[0].get_length() == 0:
+            break
+        evs.append(m.apply(op, args))
+        script.append([op, args])
+    return {'dim': dim, 'events': evs, 'origin': 'chain ' + pattern, '_script': {'xs': xs, 'ls': ls, 'dim': dim, 'ops': script}}
 
 
 def translation_only(tr, step):
@@ -367,6 +415,11 @@ def run(tier, seed):
         rep.count(1, key=('rand', json.dumps(tr['_script'])))
         if i < 2:
             rep.sample({'kind': 'random operation sequence', 'script': tr['_script']})
+    for pattern in ('remove-extreme', 'piece', 'label-piece', 'mixed-factor'):
+        for i in range(40 if tier == 'quick' else 300):
+            tr = chain_trace(rng, pattern)
+            traces.append(tr)
+            rep.count(1, key=('chain', pattern, json.dumps(tr['_script'])))
     return conclude(rep, traces)
 
 
